@@ -1,0 +1,9 @@
+//go:build verif
+
+// Contracts for package bitcoin, checked by /verif (vcgo).  Comment-only; excluded from normal builds.
+
+package bitcoin
+
+//@ func IsValidSignatureEncodingBIP0066
+//@   props C12 C07
+//@   ensures result <==> bip66(data)
